@@ -2,5 +2,5 @@
 # dev helper: generate a unit from /repo (or $REPO) and run verus on it
 u=$1; shift
 mkdir -p /tmp/vt
-python3 /verif/tools/extract.py /verif/units/$u.vrs ${REPO:-/repo} > /tmp/vt/$u.rs 2>/tmp/vt/$u.info || { tail -3 /tmp/vt/$u.info; exit 2; }
+python3 /verif/tools/extract.py ${UNITDIR:-/verif/units}/$u.vrs ${REPO:-/repo} > /tmp/vt/$u.rs 2>/tmp/vt/$u.info || { tail -3 /tmp/vt/$u.info; exit 2; }
 cd /tmp/vt && verus $u.rs --triggers-mode silent "$@" 2>&1 | grep -v '^\s*$' | head -${LINES_MAX:-70}
